@@ -320,6 +320,11 @@ func runC08(c *Ctx) {
 				c.KnownHit("C08:block-label-before-counterless-nested-for:label-becomes-counter", "pinned witness 'top i for 1 / for 2 / dat #top, #i / rof / rof' assembles to DAT #1,#1 / DAT #2,#1 instead of DAT #0,#1 / DAT #-1,#1: the renamed block label is taken for the counter of the counter-less inner block", cs(""))
 				return
 			}
+			if idx == pinnedEquInBodyIdx && len(wd.Code) == 3 && wd.Code[1].A == 3 && wd.Code[2].A == 3 && wd.Code[1].B == 3 && wd.Code[2].B == 1 {
+				// exactly the listed wrong output of the pinned witness: the block label became another name of the EQU
+				c.KnownHit("C08:block-label-before-equ-line-in-body:label-becomes-equ-name", "pinned witness 'dat 0 / top i for 1 / step equ 3 / jmp top, step / jmp top, i / rof' assembles to JMP $3,$3 / JMP $3,$1 instead of JMP $0,$3 / JMP $-1,$1: the renamed block label is written in front of the EQU line and becomes a second name of that EQU", cs(""))
+				return
+			}
 			c.Violate("C08:code:"+diffClass(dd), "FOR program vs manual unrolling: "+dd, cs(""))
 			return
 		}
@@ -343,6 +348,7 @@ func runC08(c *Ctx) {
 }
 
 const pinnedCounterlessIdx = 3
+const pinnedEquInBodyIdx = 4
 
 // pinned witnesses (known_findings.txt): run on every invocation as case 0, 1, ...
 var pinnedFor = []func(cfg asm.Config) *asm.Prog{
@@ -374,6 +380,16 @@ var pinnedFor = []func(cfg asm.Config) *asm.Prog{
 		p := &asm.Prog{Cfg: cfg}
 		inner := &asm.For{Count: asm.Lit{V: 2}, Body: []asm.Item{&asm.Instr{Op: "dat", A: asm.Operand{Mode: '#', E: asm.Ref{Name: "top"}}, B: &asm.Operand{Mode: '#', E: asm.Ref{Name: "i"}}}}}
 		p.Items = append(p.Items, &asm.For{Labels: []string{"top"}, Counter: "i", Count: asm.Lit{V: 1}, Body: []asm.Item{inner}})
+		return p
+	},
+	// known finding (pinned input only): label before a block whose body starts with an EQU line
+	func(cfg asm.Config) *asm.Prog {
+		p := &asm.Prog{Cfg: cfg}
+		jmp := func(b string) *asm.Instr {
+			return &asm.Instr{Op: "jmp", A: asm.Operand{E: asm.Ref{Name: "top"}}, B: &asm.Operand{E: asm.Ref{Name: b}}}
+		}
+		p.Items = append(p.Items, &asm.Instr{Op: "dat", A: asm.Operand{E: asm.Lit{V: 0}}},
+			&asm.For{Labels: []string{"top"}, Counter: "i", Count: asm.Lit{V: 1}, Body: []asm.Item{&asm.Equ{Name: "step", E: asm.Lit{V: 3}}, jmp("step"), jmp("i")}})
 		return p
 	},
 	// the README examples (must hold)
